@@ -14,7 +14,7 @@ code easier.
 
 from loki.batch import Transformation
 from loki.expression import symbols as sym,  LokiIdentityMapper
-from loki.ir import nodes as ir, Transformer, NestedTransformer
+from loki.ir import nodes as ir, FindVariables, Transformer, NestedTransformer
 from loki.logging import warning
 from loki.tools import dict_override
 from loki.types import SymbolTable
@@ -319,7 +319,8 @@ class MergeAssociatesTransformer(NestedTransformer):
         # Find all associate mapping that can be moved up
         to_move = tuple(
             (expr, name) for expr, name in o.associations
-            if not expr.scope == o.parent
+            # (a selector also depends on the parent via its subscripts or parents)
+            if not any(v.scope == o.parent for v in FindVariables().visit(expr))
         )
 
         if self.max_parents:
